@@ -482,7 +482,10 @@ class Gen:
             out.append(f"let {c} = {self.r.randrange(2, 9)}")
             out.append(f'fn {t}() {{ return {self.r.randrange(100, 200)} }}')
             body = self.pick([f"{c} * 2", f"{c} + {c}", f"{c} - 1", f"{c}"])
-            out.append(f"let {name}l = fn({c}) {{ return {body} }}")
+            lam = f"fn({c}) {{ return {body} }}"
+            for _ in range(self.r.randrange(0, 3)):     # redundant parentheses around the lambda
+                lam = f"({lam})"
+            out.append(f"let {name}l = {lam}")
             out.append(f"println({name}l({self.r.randrange(10, 30)}))")
             out.append(f"let {name}m = fn({t}) {{ return {t}() + 1 }}")
             out.append(f"println({name}m(fn() {{ return {self.r.randrange(1, 9)} }}))")
